@@ -107,6 +107,8 @@ func (m Mode) Takeover() (c2s, s2c bool) {
 	return false, false
 }
 
+func (m Mode) ExtHeader() string { return m.extHeader() }
+
 func (m Mode) extHeader() string {
 	switch m {
 	case "ct":
